@@ -9,7 +9,12 @@ Definition pentry := (ty * string)%type.
 Definition is_inferred (t : ty) : bool := f_inf (t_fl t).
 Definition variants_or_self (t : ty) : list ty := if is_union_type t then t_vars t else [t].
 
-Definition propagate (builtin_method : bool) (round : string) (d : option pentry) (a : ty) : bool * option pentry :=
+(* the pinned code checked the first call site of a new round against the type the earlier round had recorded *)
+Record prop_variant := { check_after_replace : bool }.
+Definition pinned_prop := {| check_after_replace := true |}.
+Definition fixed_prop := {| check_after_replace := false |}.
+
+Definition propagate (V : prop_variant) (builtin_method : bool) (round : string) (d : option pentry) (a : ty) : bool * option pentry :=
   (* argT.Round = round; an identifier argument is not propagated (the caller has excluded it) *)
   let fresh := (true, Some (set_inf a true, round)) in
   match d with
@@ -27,7 +32,7 @@ Definition propagate (builtin_method : bool) (round : string) (d : option pentry
         then (false, Some (set_inf a true, round))                 (* untyped + a matching variant: replace, then check *)
         else if is_union_type dt && is_inferred dt then (true, Some (AppendVariant dt a, dr))
         else if negb (String.eqb dr "") && negb (String.eqb dr round)
-             then (false, Some (set_inf a true, round))            (* first call of a new round: replace, then check *)
+             then (negb (check_after_replace V), Some (set_inf a true, round))   (* first call of a new round: the entry is replaced *)
         else if is_match_type dt a then (true, d)
         else if has_default dt || is_inferred dt then
                let u := UnifyVariants (MakeUnion (variants_or_self dt ++ variants_or_self a)) in
@@ -36,5 +41,5 @@ Definition propagate (builtin_method : bool) (round : string) (d : option pentry
   end.
 
 (* the call sites of one round, in evaluation order *)
-Definition round_run (builtin_method : bool) (round : string) (d : option pentry) (args : list ty) : option pentry :=
-  fold_left (fun d a => snd (propagate builtin_method round d a)) args d.
+Definition round_run (V : prop_variant) (builtin_method : bool) (round : string) (d : option pentry) (args : list ty) : option pentry :=
+  fold_left (fun d a => snd (propagate V builtin_method round d a)) args d.
